@@ -593,13 +593,14 @@ Section Rounds.
       destruct rest as [|t' r'].
       + rewrite grounds_nil in E. rewrite bitsof_nil, app_nil_r in Hb1.
         unfold fin. destruct last eqn:Elast.
-        * inversion E; subst chunks' b'. clear E. cbn [bb_out bb_acc].
-          assert (Hf : bb_bits (bb_flush_last b1) = pad8 (bb_bits b1)).
+        * assert (Hf : bb_bits (bb_flush_last b1) = pad8 (bb_bits b1)).
           { apply bb_flush_bits. destruct Hi1 as [Ha _]. lia. }
           assert (Ha : bb_acc (bb_flush_last b1) = []) by reflexivity.
           pose proof (bb_flush_inv b1 (proj2 Hi1)) as Hfi.
+          remember (bb_flush_last b1) as bf eqn:Ebf. clear Ebf.
+          inversion E; subst chunks' b'. clear E. cbn [bb_out bb_acc].
           split.
-          { pose proof (chunk_bits chunks (bb_flush_last b1) []) as Hc.
+          { pose proof (chunk_bits chunks bf []) as Hc.
             rewrite !app_nil_r in Hc. rewrite Ha, app_nil_r. rewrite Ha, app_nil_r in Hc.
             rewrite Hc, Hf, Hb1, pad8_bytes. reflexivity. }
           split; [reflexivity|]. split; [rewrite Ha; cbn [length]; lia|].
